@@ -93,4 +93,133 @@ theorem elemsLoop_join : ∀ (vs : List Text), vs ≠ [] → (∀ v ∈ vs, Stab
       have := ih (by simp) hst' n f rest (by simp at hn ⊢; omega) (by simp at hf; omega)
       simp [this]
 
+theorem stable_encodeString (s : Text) : Stable (encodeString s) := by
+  refine ⟨1, ?_⟩
+  intro r _
+  have : encodeString s ++ r = 34 :: (encodeStrBody s ++ 34 :: r) := by simp [encodeString]
+  rw [this, skipValue]
+  simp [skipStr_encodeStrBody]
+
+theorem stable_null : Stable tNull := by
+  refine ⟨1, ?_⟩
+  intro r _
+  simp [tNull, skipValue, matchLit]
+
+
+
+def AllDigits : Text → Prop
+  | [] => True
+  | c :: r => isDigit c = true ∧ AllDigits r
+
+theorem natDigits_allDigits (f : Nat) : ∀ n acc, n < f → AllDigits acc → AllDigits (natDigits f n acc) := by
+  induction f with
+  | zero => intro n acc h; omega
+  | succ f ih =>
+    intro n acc h hacc
+    by_cases hn : n < 10
+    · simp only [natDigits, hn, ↓reduceIte]
+      exact ⟨by simp [isDigit]; omega, hacc⟩
+    · simp only [natDigits, hn, ↓reduceIte]
+      exact ih (n / 10) _ (by omega) ⟨by simp [isDigit]; omega, hacc⟩
+
+theorem encodeNat_allDigits (n : Nat) : AllDigits (encodeNat n) :=
+  natDigits_allDigits (n + 1) n [] (by omega) trivial
+
+theorem delim_head_not_digit (r : Text) (h : Delim r) :
+    (∀ c r', r = c :: r' → isDigit c = false ∧ c ≠ 46 ∧ c ≠ 101 ∧ c ≠ 69) := by
+  intro c r' hr
+  subst hr
+  simp only [Delim, isJsonWs] at h
+  have hc : c = 44 ∨ c = 93 ∨ c = 125 ∨ c = 32 ∨ c = 9 ∨ c = 10 ∨ c = 13 := by
+    rcases h with h | h | h | h
+    · exact Or.inl h
+    · exact Or.inr (Or.inl h)
+    · exact Or.inr (Or.inr (Or.inl h))
+    · simp at h; omega
+  rcases hc with h | h | h | h | h | h | h <;> subst h <;> decide
+
+theorem skipDigits_append (ds r : Text) (hd : AllDigits ds) (hr : Delim r) : skipDigits (ds ++ r) = r := by
+  induction ds with
+  | nil =>
+    cases r with
+    | nil => rfl
+    | cons c r' =>
+      have := (delim_head_not_digit _ hr c r' rfl).1
+      simp [skipDigits, this]
+  | cons d ds ih =>
+    simp only [AllDigits] at hd
+    simp [skipDigits, hd.1, ih hd.2]
+
+theorem skipFracExp_delim (r : Text) (hr : Delim r) : skipFracExp r = some r := by
+  cases r with
+  | nil => rfl
+  | cons c r' =>
+    have h := delim_head_not_digit _ hr c r' rfl
+    simp [skipFracExp, skipExpOpt, h.2.1, h.2.2.1, h.2.2.2]
+
+/-- a canonical unsigned decimal is recognised as one number in front of any delimiter -/
+theorem skipInteger_encodeNat (n : Nat) (r : Text) (hr : Delim r) : skipInteger (encodeNat n ++ r) = some r := by
+  obtain ⟨d, rest, h1, h2, h3⟩ := natDigits_head (n + 1) n [] (by omega)
+  have hall := encodeNat_allDigits n
+  unfold encodeNat at hall ⊢
+  rw [h1] at hall ⊢
+  simp only [AllDigits] at hall
+  simp only [List.cons_append, skipInteger]
+  by_cases hd0 : d = 0
+  · have := (h3 hd0).2
+    subst this; subst hd0
+    simp only [Nat.add_zero, beq_self_eq_true, ↓reduceIte, List.nil_append]
+    cases r with
+    | nil => rfl
+    | cons c r' =>
+      have := delim_head_not_digit _ hr c r' rfl
+      simp only [this.1, Bool.false_eq_true, ↓reduceIte]
+      exact skipFracExp_delim _ hr
+  · have h48 : ¬ (48 + d = 48) := by omega
+    simp only [beq_iff_eq, h48, ↓reduceIte, hall.1]
+    rw [skipDigits_append rest r hall.2 hr]
+    exact skipFracExp_delim _ hr
+
+theorem stable_encodeNat (n : Nat) : Stable (encodeNat n) := by
+  refine ⟨1, ?_⟩
+  intro r hr
+  obtain ⟨d, rest, h1, h2⟩ := encodeNat_head n
+  have hnum : skipNumber (encodeNat n ++ r) = some r := by
+    have hi := skipInteger_encodeNat n r hr
+    rw [h1] at hi ⊢
+    simp only [List.cons_append, skipNumber]
+    have : ¬ (48 + d = 45) := by omega
+    simp only [beq_iff_eq, this, ↓reduceIte]
+    exact hi
+  rw [h1] at hnum ⊢
+  simp only [List.cons_append] at hnum ⊢
+  rw [skipValue]
+  have hd : isDigit (48 + d) = true := by simp [isDigit]; omega
+  have e1 : ¬ (48 + d = 34) := by omega
+  have e2 : ¬ (48 + d = 91) := by omega
+  have e3 : ¬ (48 + d = 123) := by omega
+  have e4 : ¬ (48 + d = 116) := by omega
+  have e5 : ¬ (48 + d = 102) := by omega
+  have e6 : ¬ (48 + d = 110) := by omega
+  simp only [beq_iff_eq, e1, e2, e3, e4, e5, e6, ↓reduceIte, hd, Bool.or_true]
+  exact hnum
+
+theorem stable_encodeInt (i : Int) : Stable (encodeInt i) := by
+  cases i with
+  | ofNat n => exact stable_encodeNat n
+  | negSucc n =>
+    refine ⟨1, ?_⟩
+    intro r hr
+    have hi := skipInteger_encodeNat (n + 1) r hr
+    simp only [encodeInt, List.cons_append]
+    rw [skipValue]
+    simp [skipNumber, hi]
+
+theorem stable_encodeId (i : Id) : Stable (encodeId i) := by
+  cases i with
+  | null => exact stable_null
+  | num n => exact stable_encodeNat n
+  | str s => exact stable_encodeString s
+
+
 end Jrpc
